@@ -64,9 +64,23 @@ impl<T: Qcow2IoOps> Qcow2Dev<T> {
 
                 let mut new_l1_table = l1_table.clone_and_grow(l1_index, info.cluster_size());
                 let new_l1_clusters = new_l1_table.cluster_count(info);
-                let allocated = self.allocate_clusters(new_l1_clusters).await?;
+                // The allocator may return less clusters than asked for (the
+                // end of a refcount block slice, a hole which is too small):
+                // keep such a piece out of its way and ask again.
+                let mut too_small = Vec::new();
+                let allocated = loop {
+                    match self.allocate_clusters(new_l1_clusters).await {
+                        Ok(Some(res)) if res.1 < new_l1_clusters && too_small.len() < 16 => {
+                            too_small.push(res)
+                        }
+                        other => break other,
+                    }
+                };
+                for (off, cnt) in too_small {
+                    self.free_clusters(off, cnt).await?;
+                }
 
-                match allocated {
+                match allocated? {
                     None => return Err("nothing allocated for new l1 table".into()),
                     Some(res) => {
                         if res.1 < new_l1_clusters {
